@@ -1,8 +1,8 @@
 CONSTANTS Carriers = {"xds"} Vals = {"a", "b", "u"} Labels = {} Times = {} Bads = {}
   WssWords = {} MaxRecv = 7 UnknownOnce = TRUE XdsGuard = TRUE Calls = {"a", "b"}
-  Handlers = {"h1", "h2"} InitMasks = {{"NETWORK", "NETWORK_ID", "PROG_ID", "LOCAL_TIME", "ASPECT", "TTX_PAGE", "CAPTION"}, {"NETWORK_ID", "TTX_PAGE"}} RegMasks = {{"CAPTION"}, {"NETWORK"}} Apis = {"add"} MaxReg = 1
+  Handlers = {"h1", "h2"} InitMasks = {{"NETWORK", "NETWORK_ID", "PROG_ID", "LOCAL_TIME", "ASPECT", "TTX_PAGE", "CAPTION"}, {"NETWORK_ID", "TTX_PAGE"}} RegMasks = {{"CAPTION"}, {"NETWORK"}} Apis = {"add"} MaxReg = 1 CdLen = 40 IdleSteps = {} MaxGap = 0 MaxIdle = 0
 SPECIFICATION GSpec
 VIEW gview
 INVARIANTS Dump TypeOK Faithful XdsSettles
-PROPERTIES OfThisReception OnlyAfterRepeat VpsLabelTwice NetworkMeansChange OneNetworkEvent NotAgainWhileSame StationKept CacheKept CacheDropped Gated WssOnlyAfterRepeats AspectRevertOnlyOnChange
+PROPERTIES OfThisReception OnlyAfterRepeat VpsLabelTwice NetworkMeansChange OneNetworkEvent NotAgainWhileSame StationKept CacheKept CacheDropped Gated WssOnlyAfterRepeats AspectRevertOnlyOnChange GapKeeps DropOutOnce
 CHECK_DEADLOCK FALSE
